@@ -156,11 +156,19 @@ def op_merge_refused(self: StoreSim, op):
     elif kind == 'duplicate_basename':
         # two inputs from different directories with the same file name cannot both live in
         # the merged directory: nothing may be lost (refusal is the only clean outcome)
-        sub = self.path('elsewhere')
-        os.makedirs(sub, exist_ok=True)
-        twin = os.path.join(sub, os.path.basename(good_paths[-1]))
-        shutil.copy2(good_paths[0], twin)
-        bad_kwargs['input_stores'] = good_paths + [twin]
+        if op.get('via_pattern'):
+            # the numbered part of the pattern is a directory: every input has the same file name
+            for i_, gp in enumerate(good_paths + [good_paths[0]]):
+                os.makedirs(self.path(f'run_{i_}'), exist_ok=True)
+                shutil.copy2(gp, self.path(f'run_{i_}/traj.nc'))
+            bad_kwargs = dict(input_stores_pattern=self.path('run_{index}/traj.nc'),
+                              input_stores_index_range=(0, len(good_paths)))
+        else:
+            sub = self.path('elsewhere')
+            os.makedirs(sub, exist_ok=True)
+            twin = os.path.join(sub, os.path.basename(good_paths[-1]))
+            shutil.copy2(good_paths[0], twin)
+            bad_kwargs['input_stores'] = good_paths + [twin]
     elif kind == 'wrong_output_suffix':
         bad_out = self.path(out.replace('.aeic-store', '.store'))
     elif kind == 'existing_output':
@@ -207,7 +215,8 @@ def op_merge_refused(self: StoreSim, op):
         detail = f'merge with {kind} was accepted'
         if kind == 'duplicate_basename':
             left = sorted(os.listdir(bad_out)) if os.path.isdir(bad_out) else []
-            detail += (f': {len(bad_kwargs["input_stores"])} inputs were moved into the merged directory, '
+            n_in = len(bad_kwargs['input_stores']) if 'input_stores' in bad_kwargs else len(good_paths) + 1
+            detail += (f': {n_in} inputs were moved into the merged directory, '
                        f'which now holds {left} - one input overwrote another')
         self.fail('mrefuse.accepted', detail, **feat)
     gc.collect()
@@ -390,6 +399,8 @@ def gen_merge_refused(gen):
     gen.nmerged += 1
     op = {'op': 'merge_refused', 'kind': kind, 'out': f'm{gen.nmerged}.aeic-store',
           'inputs': [f.name for f in chosen]}
+    if kind == 'duplicate_basename' and rng.random() < 0.5:
+        op['via_pattern'] = True
     if kind in ('differing_fieldsets', 'mixed_identification'):
         others = [f for g2, fl in bg.items() if g2 != gid for f in fl]
         if kind == 'differing_fieldsets':
